@@ -1,4 +1,5 @@
 mod budget;
+mod freelist;
 mod plock;
 mod sched;
 mod util;
@@ -16,6 +17,7 @@ fn main() {
         "wal-replay" => wal::replay(&args),
         "budget-replay" => budget::replay(&args),
         "plock-replay" => plock::replay(&args),
+        "freelist-replay" => freelist::replay(&args),
         "wal-faults" => wal::fault_sweep(&args),
         other => {
             eprintln!("unknown subcommand {}", other);
